@@ -246,6 +246,59 @@ theorem clean_field_race_free (facts : List Fact) (f m : Nat) (ts : List (Nat ×
   obtain ⟨p, hp, rfl⟩ := List.mem_map.1 ht
   exact guarded_of_conforms_aux facts p.1 f m (fun x hx _ hcx hfx => hf x hx hcx hfx) p.2 (fun _ => false) (hc p hp)
 
+/-! ## the discipline check is sound (any list of facts) -/
+
+theorem mem_filter_not {α : Type} (p : α → Bool) (l : List α) (x : α) (hx : x ∈ l) : x ∈ l.filter (fun y => !p y) ∨ p x = true := by
+  cases h : p x
+  · left; exact List.mem_filter.2 ⟨hx, by simp [h]⟩
+  · right; rfl
+
+theorem all_of_filter_nil {α : Type} (p : α → Bool) (l : List α) (h : l.filter (fun y => !p y) = []) : ∀ x ∈ l, p x = true := by
+  intro x hx
+  rcases mem_filter_not p l x hx with hm | hp
+  · rw [h] at hm; cases hm
+  · exact hp
+
+/-- **discipline_sound** (generic: ANY list of facts, any classification inputs, any number of mutexes).  If the
+    decidable check flags nothing, then for every field that is not exempt no schedule of any set of goroutines
+    running execution paths of the extracted entry points has a data race on it: the check found a mutex common to
+    all concurrent-phase accesses of the field and `lockset_sound_multi` applies. -/
+theorem discipline_sound (facts : List Fact) (kinds syncs : List Nat) (nFields nMutex : Nat)
+    (h : flaggedOf facts kinds syncs nFields nMutex = [])
+    (f : Nat) (hne : f ∉ exemptFields facts kinds syncs nFields)
+    (ts : List (Nat × Thread)) (hc : ∀ p ∈ ts, Conforms facts p.1 p.2) :
+    ∀ c, Reach (initCfg (ts.map (·.2))) c → ¬ Race c f := by
+  apply clean_field_race_free facts f ((guardsOf facts nMutex nFields).getD f 0) ts hc
+  intro x hx hcx hfx
+  have hok := all_of_filter_nil _ facts h x hx
+  simp only [factOk, hcx, hfx, Bool.not_true, Bool.false_or, Bool.or_eq_true] at hok
+  rcases hok with he | hh
+  · exact absurd (List.contains_iff_mem.1 he) hne
+  · exact hh
+
+/-- a miniature of the lifecycle fix (mutex 0 = screen, 1 = lifecycle; fields 0 = cells, 1 = wg.state, 2 = a sync
+    primitive; entries 0 = SetContent, 1 = Resume/engage, 2 = Suspend/disengage): wg.Add holds {0,1}, wg.Wait holds {1},
+    the tail of disengage writes cells holding {0,1}, SetContent writes cells holding {0} … -/
+def miniFixed : List Fact :=
+  [⟨0, 0, true, [0], true, false⟩, ⟨1, 0, true, [0, 1], true, false⟩, ⟨1, 1, true, [0, 1], true, false⟩,
+   ⟨2, 1, false, [1], true, true⟩, ⟨2, 0, true, [0, 1], true, true⟩]
+
+/-- … nothing is flagged (the hypothesis of `discipline_sound` is satisfiable with two mutexes): cells is guarded by the
+    screen mutex, wg.state by lifecycle -/
+example : flaggedOf miniFixed [0, 0, 0] [2] 3 2 = [] ∧ guardsOf miniFixed 2 3 = [0, 1, 0] ∧
+    0 ∉ exemptFields miniFixed [0, 0, 0] [2] 3 ∧ 1 ∉ exemptFields miniFixed [0, 0, 0] [2] 3 := by decide
+
+/-- the pinned shape (wg.Wait and the tail hold nothing): exactly the two accesses of disengage are flagged -/
+example : flaggedOf [⟨0, 0, true, [0], true, false⟩, ⟨1, 0, true, [0], true, false⟩, ⟨1, 1, true, [0], true, false⟩,
+    ⟨2, 1, false, [], true, true⟩, ⟨2, 0, true, [], true, true⟩] [0, 0, 0] [2] 3 1
+    = [⟨2, 1, false, [], true, true⟩, ⟨2, 0, true, [], true, true⟩] := by decide
+
+/-- the mutant "engage does not take lifecycle" (wg.Add holds {0}, wg.Wait holds {1}): the lock sets of wg.state are
+    disjoint, the access that does not hold the lowest-numbered candidate (the Wait) is flagged — cf. `disjoint_locks_race` -/
+example : flaggedOf [⟨0, 0, true, [0], true, false⟩, ⟨1, 0, true, [0], true, false⟩, ⟨1, 1, true, [0], true, false⟩,
+    ⟨2, 1, false, [1], true, true⟩, ⟨2, 0, true, [0, 1], true, true⟩] [0, 0, 0] [2] 3 2
+    = [⟨2, 1, false, [1], true, true⟩] := by decide
+
 /-! ## the discipline on the regenerated facts -/
 
 open Tcell.Gen.LockFacts in
@@ -270,11 +323,6 @@ theorem flagged_exact : flaggedOf facts entryKind syncFields nFields nMutexes = 
   unfold flaggedOf
   rw [exempt_exact, guards_exact]
   decide +kernel
-
-theorem mem_filter_not {α : Type} (p : α → Bool) (l : List α) (x : α) (hx : x ∈ l) : x ∈ l.filter (fun y => !p y) ∨ p x = true := by
-  cases h : p x
-  · left; exact List.mem_filter.2 ⟨hx, by simp [h]⟩
-  · right; rfl
 
 open Tcell.Gen.LockFacts in
 /-- the discipline on one fact of the tree under test: init-phase access, or exempt field (synchronisation primitive,
@@ -354,12 +402,6 @@ open Tcell.Gen.LockFacts in
 /-- fields of class "must be guarded" that no flagged fact mentions: on these `clean_field_race_free` applies -/
 def cleanFields : List Nat :=
   (List.range nFields).filter fun f => !exempt.contains f && !flagged.any (·.field == f)
-
-theorem all_of_filter_nil {α : Type} (p : α → Bool) (l : List α) (h : l.filter (fun y => !p y) = []) : ∀ x ∈ l, p x = true := by
-  intro x hx
-  rcases mem_filter_not p l x hx with hm | hp
-  · rw [h] at hm; cases hm
-  · exact hp
 
 open Tcell.Gen.LockFacts in
 /-- **clean_fields_held.**  For every clean field all concurrent-phase facts hold the field's guard mutex (kernel
